@@ -246,3 +246,46 @@ def h_precedence_two_families(ob: int, spec: int, gen: int) -> bool:
     ok = st.magnetization.arrow.width == _first(_pick(SIZES, ob), _pick(SIZES, spec), _pick(SIZES, gen))
     _TRI.style.magnetization.arrow.width = None
     return ok
+
+
+# ---------------------------------------------------------------------------- "never leak": the resolved style of a show() call is temporary
+from magpylib._src.utility import style_temp_edit
+
+
+def h_show_style_does_not_leak(with_kw: bool, fail: bool, copy: bool) -> bool:
+    """
+    post: _
+    """
+    # the effective style (show kwarg > object > defaults) is installed on the object only while its traces are built;
+    # afterwards - also when building them raises - the object's own style is what it was: same object, same leaves
+    o = magpy.magnet.Cuboid(polarization=(0, 0, 1), dimension=(1, 1, 1), style_opacity=0.5)
+    own = o.style
+    own_before = own.as_dict()
+    resolved = get_style(o, magpy.defaults, **({"style_opacity": 0.25} if with_kw else {}))
+    seen = []
+    try:
+        with style_temp_edit(o, resolved, copy=copy):
+            seen.append(o.style.opacity)
+            o.style.magnetization.show = False  # display code edits the temporary style
+            if fail:
+                raise KeyError("building the traces failed")
+    except KeyError:
+        pass
+    return o.style is own and own.as_dict() == own_before and seen == [0.25 if with_kw else 0.5]
+
+
+def twin_show_style_does_not_leak(kw: int, fail: bool) -> bool:
+    """
+    pre: 0 <= kw <= 3
+    post: _
+    """
+    o = magpy.magnet.Cuboid(polarization=(0, 0, 1), dimension=(1, 1, 1))
+    v_kw = _pick(VALS, kw)
+    resolved = get_style(o, magpy.defaults, **({} if v_kw is None else {"style_opacity": v_kw / 2}))
+    try:
+        with style_temp_edit(o, resolved, copy=True):
+            if fail:
+                raise KeyError("x")
+    except KeyError:
+        return False
+    return True
